@@ -80,6 +80,7 @@ def _pred_of(test, var):
 
 
 _RESOLVER = [None]     # set by analyse()/operations(): maps a Name node used as a test to the pure expression it stands for
+_ASSUME_TRUE = [()]    # set by analyse(assume_true=...): expression texts taken to hold for as long as ``var`` is not rebound
 
 
 def refine(state, test, truth, var):
@@ -90,6 +91,8 @@ def refine(state, test, truth, var):
             return refine(state, e, truth, var)
     if isinstance(test, ast.UnaryOp) and isinstance(test.op, ast.Not):
         return refine(state, test.operand, not truth, var)
+    if _ASSUME_TRUE[0] and norm(test) in _ASSUME_TRUE[0]:
+        return state if truth else frozenset()
     if isinstance(test, ast.BoolOp):
         conj = isinstance(test.op, ast.And)
         if conj == truth:
@@ -171,9 +174,12 @@ def _make_resolver(fn, var):
     return resolver
 
 
-def analyse(fn, var, init=ALL):
-    """dict cfg-node id -> classes ``var`` may have BEFORE the node (None = unreachable / undefined)."""
+def analyse(fn, var, init=ALL, assume_true=()):
+    """dict cfg-node id -> classes ``var`` may have BEFORE the node (None = unreachable / undefined).
+    ``assume_true``: texts of tests about the VALUE var holds (e.g. "column.is_na().any()") explored under the hypothesis
+    that they hold -- a conditional world: the edges on which they are false are not taken."""
     cfg = cfg_of(fn)
+    _ASSUME_TRUE[0] = tuple(assume_true)
     _RESOLVER[0] = _make_resolver(fn, var) if var.isidentifier() else None
     import re as _re
     root = _re.match(r"[A-Za-z_]\w*", var).group(0)
